@@ -195,6 +195,22 @@ CLAIMED = {
         "reaping, cmds_to_specs' except-BaseException close (loop abstracted in C07), reader/closer thread schedules, Windows. ASSUMED: set-up "
         "statements of PopenThread.__init__ other than the spawn do not raise once handlers are installed. Trusted: pyvc engine + models + z3/cvc5.",
    design="§3 C09"),
+ "C06": dict(
+   category="proof",
+   text="The reader queue, consumer and producer side, as sequential effect-trace contracts on the real source: QueueReader.readlines (polling form) and "
+        "_read_all_lines return exactly the lines of every chunk they dequeued, in order - nothing dropped, nothing twice (loop invariant lines == "
+        "flat(dequeued), flat given by its two defining axioms); read_queue dequeues one chunk per call and nothing on a timeout; is_fully_read answers "
+        "True only with `closed` set and with emptiness sampled LAST, after the producer thread was seen finished (the only sampling order that is right "
+        "under every interleaving); populate_fd_queue queues exactly the non-empty chunks in the order read, stops only at end of stream or on a read "
+        "error, and flags the reader closed after the last chunk is queued. Bounded stand-in (not proved): real $() / !() (.out, .raw_out, iteration) / "
+        "@$() on payloads of 0..70000 bytes (thorough 1 MiB) and alias stages writing up to 60000 lines, byte for byte, plus CR/CRLF, stderr separation "
+        "and the final stage's return code.",
+   note="NOT covered by any contract: thread interleavings themselves (the property's quantifier over schedules) - the is_fully_read clause is the sequential "
+        "obligation that makes the protocol schedule-independent, but PopenThread.run / _read_write, ProcProxyThread.run, CommandPipeline.iterraw / "
+        "tee_stdout / _end, the final drain after wait and the closing order of previous stages are unverified (bounded check only, one schedule per "
+        "case). QueueReader.read / readline / iterqueue (same loop shape) not under contract. Observation (not claimed either way): whether a one-line "
+        "`.out` keeps its final newline depends on how many chunks the line arrived in. Trusted: pyvc engine + the two flat axioms + z3.",
+   design="§3 C06"),
 }
 NA = {
  "C01": "equivalence of two grammars (PLY LALR tables vs CPython's PEG parser) is not a function contract; no contract within reach can express or decide it (DESIGN §3 C01)",
